@@ -2,8 +2,8 @@
    mu, each taking a versioned snapshot) and persist() executions (atomic under
    saveMu, in any order), once no persist is outstanding the `local` file is
    the snapshot with the highest version, which is the memory; an interrupted
-   persist leaves `local` complete; what a restart then reads is another matter
-   (stale temp files: refuted). *)
+   persist leaves `local` complete, and a restart reads nothing but `local`
+   (the leftover temp file is deleted: commit 329a134). *)
 From Coq Require Import Permutation.
 From Sdns Require Import Common.Base Gen.C18 C18.Model C18.Spec C18.Proofs_match.
 Open Scope N_scope.
@@ -13,6 +13,7 @@ Open Scope N_scope.
 Lemma set_locked_false k b : fst (set_locked k b) = false -> snd (set_locked k b) = b.
 Proof.
   unfold set_locked. destruct (match_hierarchy (canonical k) (bw b)); [reflexivity|].
+  destruct (negb (persistable (canonical k))); [reflexivity|].
   destruct (has_prefix set_wildp (canonical k)); cbn; discriminate.
 Qed.
 Lemma remove_locked_false k b : fst (remove_locked k b) = false -> snd (remove_locked k b) = b.
@@ -198,6 +199,25 @@ Lemma guard_is_needed :
   end.
 Proof. cbn. split; [discriminate|reflexivity]. Qed.
 
+(* the proof rests on "every snapshot that was taken is handed to persist()" and on
+   "persist() drops a snapshot only for one that is already on disk".  A variant
+   in which a call that changes nothing still bumps the version (and saves nothing),
+   while persist() also drops a snapshot because a newer version "has been taken",
+   does not converge: the real change below never reaches the file. *)
+Definition persist_if_newest (sn : snap) (s : sys) : sys :=
+  if negb (sn_ver sn =? 0) && ((sn_ver sn <=? s_last s) || (sn_ver sn <? s_version s)) then s
+  else mk_sys (s_mem s) (s_version s) (sn_ver sn) (Some (snap_bytes sn)) (s_pending s).
+Lemma dropping_for_a_taken_version_is_unsound :
+  let k := [97; 46] in
+  let s1 := snd (sys_mutate (OpSet k) [k] [] (init (mk_bl [] [] []) None)) in
+  let s2 := mk_sys (s_mem s1) (s_version s1 + 1) (s_last s1) (s_local s1) (s_pending s1) in
+  match s_pending s2 with
+  | [a] => s_local (persist_if_newest a s2) = None /\ bm (s_mem s2) = [k]
+           /\ s_local (persist_snap a s2) = Some (snap_bytes (mk_snap 1 [k] []))
+  | _ => False
+  end.
+Proof. cbn. repeat split; reflexivity. Qed.
+
 (* ---------------------------------------------------------------- interruption *)
 
 Lemma fold_writes d chunks acc :
@@ -258,35 +278,30 @@ Proof.
   rewrite fold_left_app, fold_writes. reflexivity.
 Qed.
 
-(* Full statement for the restart (what "leaves the previous complete file rather
-   than a partial one" is for):
-     forall d s k j w, a restart on (crash_at d s k j) loads the list of d or the list of s.
-   Refuted: the interrupted temp file local.tmp.<n> stays in the directory and is
-   parsed like any other list.  Previous file {com.evil.test.}, Set(x.test.)
-   interrupted 3 bytes into the first entry line: the restart blocks all of com. *)
+(* The restart (what "leaves the previous complete file rather than a partial one"
+   is for): whatever the crash point and whatever older leftovers lie in the
+   directory, loadInitial loads the previous file or the complete new one — the
+   temp files are deleted before anything is read. *)
+Lemma crash_reload_lemma wl bl d s k j :
+  let d' := crash_at d s k j in
+  (load_initial wl bl (disk_files d') = load_initial wl bl (disk_files d) \/
+   load_initial wl bl (disk_files d') = load_initial wl bl [snap_bytes s]) /\
+  d_temps (after_restart d') = [].
+Proof.
+  cbn zeta. split; [|reflexivity]. unfold disk_files.
+  destruct (crash_leaves_complete_file_lemma d s k j) as [E|E]; rewrite E; [now left|now right].
+Qed.
+
+(* the witness that refuted this before the repair, now on the right side: previous
+   file {com.evil.test.}, Set(x.test.) interrupted 3 bytes into the first entry
+   line; the restart does not block example.com. *)
 Definition crash_old : str := lines_bytes [header; [99;111;109;46;101;118;105;108;46;116;101;115;116;46]].
 Definition crash_snap : snap := mk_snap 2 [[99;111;109;46;101;118;105;108;46;116;101;115;116;46]; [120;46;116;101;115;116;46]] [].
 Definition crash_probe : str := [101;120;97;109;112;108;101;46;99;111;109;46].   (* example.com. *)
-Lemma crash_reload_refuted_lemma :
+Lemma crash_reload_example :
   let d := mk_disk (Some crash_old) [] in
   let d' := crash_at d crash_snap 2 3 in
-  d_local d' = Some crash_old /\
-  let before := load_initial [] [] (disk_files d) in
-  let wanted := mk_bl (sn_exact crash_snap) (sn_wild crash_snap) [] in
-  let after := load_initial [] [] (disk_files d') in
-  bl_exists before crash_probe = false /\ bl_exists wanted crash_probe = false /\ bl_exists after crash_probe = true.
-Proof. vm_compute. repeat split; reflexivity. Qed.
-
-(* and entries removed later come back: the leftover of an interrupted Set(y) still
-   lists x; Remove(x) then reaches `local` in full, yet the next start blocks x *)
-Lemma stale_temp_resurrects :
-  let x := [120;46;116;101;115;116;46] in let y := [121;46;116;101;115;116;46] in
-  let d0 := mk_disk (Some (lines_bytes [header; x])) [] in
-  let d1 := crash_at d0 (mk_snap 2 [x; y] []) 3 0 in            (* header and x written, then killed *)
-  let b1 := load_initial [] [] (disk_files d1) in               (* restart *)
-  let '(_, s2) := sys_call (OpRemove x) (mk_sys b1 0 0 (d_local d1) []) in
-  let d2 := mk_disk (s_local s2) (d_temps d1) in
-  bl_exists (s_mem s2) x = false /\
-  s_local s2 = Some (lines_bytes [header]) /\
-  bl_exists (load_initial [] [] (disk_files d2)) x = true.
+  d_temps d' = [header ++ [c_nl] ++ [99;111;109]] /\
+  bl_exists (load_initial [] [] (disk_files d')) crash_probe = false /\
+  load_initial [] [] (disk_files d') = load_initial [] [] (disk_files d).
 Proof. vm_compute. repeat split; reflexivity. Qed.
